@@ -399,7 +399,7 @@ def gen_docs(chk):
         if n[0] == "Q":
             return ("Q", [mutate(x, p) for x in n[1]])
         return n
-    for k in range(chk.n(1200, 40000)):
+    for k in range(chk.n(4000, 40000)):
         add("random:%d" % k, mutate(base, rng.choice([0.03, 0.06, 0.12])))
     for k in range(chk.n(150, 3000)):
         add("random-root:%d" % k, rnd_node(4))
@@ -680,7 +680,7 @@ def ninja_cases(chk):
         for cut in range(len(s) + 1):
             one("truncate:%d:%d" % (si, cut), s[:cut], **inc)
     # mutations: byte edits and dictionary splices, CR/LF mixes
-    for k in range(chk.n(2500, 80000)):
+    for k in range(chk.n(15000, 120000)):
         s = bytearray(rng.choice(NINJA_SEEDS))
         for _ in range(rng.choice([1, 1, 2, 3, 6])):
             r = rng.random()
@@ -698,7 +698,7 @@ def ninja_cases(chk):
             else:
                 s = bytearray(bytes(s).replace(b"\n", rng.choice([b"\r\n", b"\r", b"\n\r", b"\n\n"]), rng.randint(1, 8)))
         one("mutant:%d" % k, bytes(s), **inc)
-    for k in range(chk.n(600, 20000)):
+    for k in range(chk.n(4000, 30000)):
         n = rng.choice([1, 2, 3, 5, 9, 40, 300])
         r = rng.random()
         if r < 0.5:
@@ -846,7 +846,7 @@ def replay(chk, rp):
         if st != "ok":
             chk.violation(key or "ninja-load-crash", rp.get("what", "replayed manifest still fails"), dict(rp, outcome=ans), found_input=True, broken=rp.get("broken"))
         chk.count(("replay", key))
-        return chk.finish(level="proof", rule="replay of one recorded manifest")
+        return run(chk)
     if rp.get("input_hex") or rp.get("generator"):
         data = bytes.fromhex(rp["input_hex"]) if rp.get("input_hex") else eval(rp["generator"], {"__builtins__": {}})
         p = os.path.join(d, "replay.llbuild")
@@ -863,5 +863,4 @@ def replay(chk, rp):
             if "BADPOS" in f or (f[0] == "ERR" and (len(f) < 2 or f[1] in (".", "0"))):
                 chk.violation(key, rp.get("what", ""), dict(rp, answer=ans), found_input=True, broken=rp.get("broken"))
         chk.count(("replay", key))
-        return chk.finish(level="proof", rule="replay of one recorded build description")
     return run(chk)
